@@ -349,6 +349,12 @@ def rule_increase_width(ck, rid="C04.R4"):
             continue
         if ex is None:
             raise AnalysisError(f"_increase_width: return form not recognised: {src(r.stmt)}")
+        # recognised and wrong: a slice / selection of the argument - columns beyond the cut are dropped (the function only ever grows)
+        if isinstance(ex, ast.Subscript) and same_array(ex.value) and any(isinstance(x, ast.Slice) and (x.upper is not None or x.lower is not None or x.step is not None)
+                                                                         for x in (ex.slice.elts if isinstance(ex.slice, ast.Tuple) else [ex.slice])):
+            ck.violation(rid, f, r.stmt, f"`{src(ex, 60)}` returns a cut of the matrix: when it is already wider than the target, the columns beyond the target "
+                         "(pilots of a schedule that reaches past the last known event) are thrown away", sink="return-unchanged")
+            continue
         # (b) concatenation of the array and a zero block of the missing width
         if isinstance(ex, ast.Call) and call_name(ex) in ("concatenate", "hstack", "append") and ex.args:
             parts = ex.args[0].elts if isinstance(ex.args[0], (ast.Tuple, ast.List)) else list(ex.args[:2])
